@@ -136,6 +136,8 @@ def binding_doc_stream(ctx, n, off=0, collect=True):
                 bad = values_insert_case(rng, d)
             if not bad:
                 bad = undocumented_sibling_case(rng, d)
+            if not bad:
+                bad = markup_first_case(rng, d)
             if not bad and case % 3 == 0:
                 bad = long_doc_case(rng, d)
                 if collect:
@@ -262,6 +264,41 @@ def undocumented_sibling_case(rng, d):
         if cm.group(1) != "Doc" and docs:
             return dict(what="the binding of %s::%s — a class whose documentation cannot be found (%s) — carries the documentation of Doc::%s"
                         % (cm.group(1), nm.group(1) if nm else "?", ", ".join(kinds), docs[0]), input=text, binding=l.strip()[:300])
+    return None
+
+
+def markup_first_case(rng, d):
+    """Doxygen paragraphs that BEGIN with a markup element (`@return Pose of the camera` with `Pose` a documented class becomes
+    `<para><ref …>Pose</ref> of the camera</para>`; a parameter description or a brief that starts with `<computeroutput>`):
+    generation never fails, and the binding keeps the documentation of its member"""
+    from gtwrap.pybind_wrapper import PybindWrapper
+    import io, contextlib
+    import streams
+    el = rng.choice(['<ref refid="classPose" kindref="compound">Pose</ref>', '<computeroutput>Pose</computeroutput>', '<emphasis>the</emphasis>', '<bold>T</bold>'])
+    where = rng.sample(["return", "param", "detail"], rng.randint(1, 3))
+    ret = '<simplesect kind="return"><para>%s of the camera</para></simplesect>' % (el if "return" in where else "pose")
+    par = ('<parameterlist kind="param"><parameteritem><parameternamelist><parametername>u</parametername></parameternamelist>'
+           '<parameterdescription><para>%s pixel column</para></parameterdescription></parameteritem></parameterlist>' % (el if "param" in where else "the"))
+    det = '<para>%s longer text.</para>' % (el if "detail" in where else "A")
+    sub = os.path.join(d, "markup")
+    os.makedirs(sub, exist_ok=True)
+    open(os.path.join(sub, "index.xml"), "w").write('<doxygenindex><compound refid="classCam" kind="class"><name>ns::Cam</name></compound></doxygenindex>')
+    open(os.path.join(sub, "classCam.xml"), "w").write(
+        '<doxygen><compounddef id="classCam" kind="class"><compoundname>ns::Cam</compoundname><sectiondef kind="public-func">'
+        '<memberdef kind="function" id="m1"><type>double</type><name>depth</name><argsstring>(int u)</argsstring>'
+        '<param><type>int</type><declname>u</declname></param><briefdescription><para>DOCOF[depth]END</para></briefdescription>'
+        '<detaileddescription>%s<para>%s%s</para></detaileddescription></memberdef></sectiondef></compounddef></doxygen>' % (det, par, ret))
+    text = "namespace ns { class Cam { Cam(); double depth(int u) const; }; }"
+    try:
+        with contextlib.redirect_stdout(io.StringIO()):
+            out = PybindWrapper(module_name="m", top_module_namespaces=[''], use_boost_serialization=False, ignore_classes=[],
+                                module_template=streams.TPL_MIN, xml_source=sub).wrap_file(text, module_name="m")
+    except Exception as ex:  # noqa
+        return dict(what="generation fails (%s) on Doxygen XML whose %s paragraph begins with a markup element" % (type(ex).__name__, "/".join(where)),
+                    input=text, paragraph_begins_with=el)
+    line = next((l for l in out.splitlines() if "self->depth(" in l), "")
+    if "DOCOF[depth]END" not in line:
+        return dict(what="the binding of ns::Cam::depth lost its documentation (a paragraph begins with a markup element)", input=text, binding=line[:300])
     return None
 
 
